@@ -1,4 +1,4 @@
-// Package string (fx/string): last path segment is a predeclared identifier (known-finding stream).
+// Package string (fx/string): last path segment is a predeclared identifier (the import tracker must not use it as local name).
 package string
 
 import _ "embed"
